@@ -1,17 +1,163 @@
 import PhyVerif.Model.C06
 import PhyVerif.Spec.C06
-/-! Helper lemmas and full proofs for C06. Statements: `Props/C06.lean`. -/
+import PhyVerif.Lemmas.Np
+import PhyVerif.Lemmas.C07
 namespace PhyVerif.C06.Lemmas
 open PhyVerif PhyVerif.C06
 
 variable {β : Type}
+
+/-! Helper lemmas and full proofs for C06. Statements: `Props/C06.lean`. -/
+
+/-! generic "scatter" fold: `acc[pos a] = val a` for `a` in order -/
+section scatter
+variable {α γ : Type}
+
+def scatter (pos : α → Nat) (val : α → γ) (s : List α) (acc : List γ) : List γ :=
+  s.foldl (fun acc a => acc.set (pos a) (val a)) acc
+
+theorem scatter_cons (pos : α → Nat) (val : α → γ) (a : α) (s : List α) (acc : List γ) :
+    scatter pos val (a :: s) acc = scatter pos val s (acc.set (pos a) (val a)) := rfl
+
+theorem scatter_length (pos : α → Nat) (val : α → γ) (s : List α) :
+    ∀ acc : List γ, (scatter pos val s acc).length = acc.length := by
+  induction s with
+  | nil => intro acc; rfl
+  | cons a s ih => intro acc; rw [scatter_cons, ih, List.length_set]
+
+theorem scatter_get_of_not_written (pos : α → Nat) (val : α → γ) (i : Nat) (s : List α)
+    (h : ∀ a ∈ s, pos a ≠ i) : ∀ acc : List γ, (scatter pos val s acc)[i]? = acc[i]? := by
+  induction s with
+  | nil => intro acc; rfl
+  | cons a s ih =>
+    intro acc
+    rw [scatter_cons, ih (fun b hb => h b (List.mem_cons_of_mem _ hb)), List.getElem?_set,
+      if_neg (h a List.mem_cons_self)]
+
+theorem scatter_get_of_written (pos : α → Nat) (val : α → γ) (i : Nat) (y : γ) (s : List α)
+    (hex : ∃ a ∈ s, pos a = i) (hval : ∀ a ∈ s, pos a = i → val a = y) :
+    ∀ acc : List γ, i < acc.length → (scatter pos val s acc)[i]? = some y := by
+  induction s with
+  | nil => obtain ⟨a, ha, _⟩ := hex; cases ha
+  | cons a s ih =>
+    intro acc hlt
+    rw [scatter_cons]
+    by_cases h : ∃ b ∈ s, pos b = i
+    · exact ih h (fun b hb => hval b (List.mem_cons_of_mem _ hb)) _ (by rw [List.length_set]; exact hlt)
+    · have hn : ∀ b ∈ s, pos b ≠ i := fun b hb hp => h ⟨b, hb, hp⟩
+      rw [scatter_get_of_not_written pos val i s hn, List.getElem?_set]
+      obtain ⟨b, hb, hp⟩ := hex
+      rcases List.mem_cons.mp hb with hba | hbs
+      · subst hba
+        rw [if_pos hp, if_pos (hp ▸ hlt), hval b List.mem_cons_self hp]
+      · exact absurd hp (hn b hbs)
+
+end scatter
+
+/-! ## `from_sparse` -/
+
+theorem locOf_eq_iff (chans : List Nat) (hc : chans.Nodup) (c : Int) (j : Nat) (hj : j < chans.length) :
+    locOf chans c = j ↔ c = Int.ofNat (chans[j]'hj) := by
+  unfold locOf
+  constructor
+  · intro h
+    split at h
+    · rename_i hh
+      have hmem : c.toNat ∈ chans := by simpa using hh.2
+      have hlt : chans.idxOf c.toNat < chans.length := List.idxOf_lt_length_iff.mpr hmem
+      have := List.getElem_idxOf hlt
+      subst h
+      rw [this]
+      have := hh.1
+      simp only [Int.ofNat_eq_natCast]
+      omega
+    · omega
+  · intro h
+    subst h
+    have hmem : chans[j] ∈ chans := List.getElem_mem hj
+    simp only [Int.ofNat_eq_natCast, Int.toNat_natCast, List.contains_eq_mem, hmem, decide_true, and_true]
+    rw [if_pos (by omega)]
+    exact hc.idxOf_getElem j hj
+
+theorem scatterRow_fold_get (zero : β) (chans : List Nat) (hc : chans.Nodup) (j : Nat) (hj : j < chans.length) :
+    ∀ (cols : List Int) (data acc : List β), data.length = cols.length →
+      (cols.filter (0 ≤ ·)).Nodup → j < acc.length →
+      (scatter (fun p : Int × β => locOf chans p.1) (fun p => p.2) (cols.zip data) acc)[j]? =
+        match cols.idxOf? (Int.ofNat (chans[j]'hj)) with
+        | some k => some (data.getD k zero)
+        | none => acc[j]? := by
+  intro cols
+  induction cols with
+  | nil => intro data acc _ _ _; rfl
+  | cons x cs ih =>
+    intro data acc hlen hnd hlt
+    cases data with
+    | nil => simp at hlen
+    | cons d ds =>
+      rw [List.zip_cons_cons, scatter_cons, List.idxOf?_cons]
+      by_cases hx : x = Int.ofNat (chans[j]'hj)
+      · -- written here, never again
+        have hx0 : 0 ≤ x := by subst hx; simp
+        rw [List.filter_cons_of_pos (by simpa using hx0), List.nodup_cons] at hnd
+        have hnot : x ∉ cs := fun hm => hnd.1 (List.mem_filter.mpr ⟨hm, by simpa using hx0⟩)
+        rw [if_pos (by simpa using hx)]
+        rw [scatter_get_of_not_written]
+        · simp only
+          rw [(locOf_eq_iff chans hc x j hj).mpr hx, List.getElem?_set, if_pos rfl, if_pos hlt]
+          rfl
+        · intro p hp hloc
+          have := (locOf_eq_iff chans hc p.1 j hj).mp hloc
+          have hm := (List.of_mem_zip (a := p.1) (b := p.2) hp).1
+          rw [this, ← hx] at hm
+          exact hnot hm
+      · have hnd' : (cs.filter (0 ≤ ·)).Nodup := by
+          by_cases hx0 : 0 ≤ x
+          · rw [List.filter_cons_of_pos (by simpa using hx0), List.nodup_cons] at hnd
+            exact hnd.2
+          · rw [List.filter_cons_of_neg (by simpa using hx0)] at hnd
+            exact hnd
+        have hne : locOf chans x ≠ j := fun h => hx ((locOf_eq_iff chans hc x j hj).mp h)
+        rw [if_neg (by simpa using hx)]
+        rw [ih ds _ (by simpa using hlen) hnd' (by rw [List.length_set]; exact hlt)]
+        cases cs.idxOf? (Int.ofNat chans[j]) with
+        | none => simp only [Option.map_none]; rw [List.getElem?_set, if_neg hne]
+        | some k => simp only [Option.map_some]; rfl
+
+theorem scatterRow_eq (zero : β) (chans : List Nat) (hc : chans.Nodup) (data : List β) (cols : List Int)
+    (hlen : data.length = cols.length) (hnd : (cols.filter (0 ≤ ·)).Nodup) :
+    scatterRow zero chans data cols = chans.map fun c => denseEntry zero data cols c := by
+  apply List.ext_getElem?
+  intro j
+  show (List.take chans.length (scatter (fun p : Int × β => locOf chans p.1) (fun p => p.2) (cols.zip data)
+    (List.replicate (chans.length + 1) zero)))[j]? = _
+  rw [List.getElem?_take, List.getElem?_map]
+  by_cases hj : j < chans.length
+  · rw [if_pos hj, scatterRow_fold_get zero chans hc j hj cols data _ hlen hnd (by simp; omega)]
+    rw [List.getElem?_eq_getElem hj, Option.map_some]
+    unfold denseEntry
+    cases cols.idxOf? (Int.ofNat chans[j]) with
+    | none => simp only; rw [List.getElem?_replicate, if_pos (by omega)]
+    | some k => rfl
+  · rw [if_neg hj, List.getElem?_eq_none (by omega)]; rfl
 
 theorem fromSparse_spec (zero : β) (data : List (List β)) (cols : List (List Int)) (chans : List Nat)
     (hc : chans.Nodup) (hlen : data.length = cols.length)
     (hrow : ∀ p ∈ data.zip cols, p.1.length = p.2.length) (hcols : ColsOK cols) :
     fromSparse zero data cols chans =
       some ((data.zip cols).map fun p => chans.map fun c => denseEntry zero p.1 p.2 c) := by
-  sorry
+  unfold fromSparse
+  have h1 : (!decide chans.Nodup) = false := by simp [hc]
+  have h2 : (data.length != cols.length) = false := by simp [hlen]
+  have h3 : ((data.zip cols).any fun p => p.1.length != p.2.length) = false := by
+    rw [List.any_eq_false]
+    intro p hp
+    simp [hrow p hp]
+  rw [h1, h2, h3]
+  simp only [Bool.false_eq_true, if_false]
+  congr 1
+  apply List.map_congr_left
+  intro p hp
+  exact scatterRow_eq zero chans hc p.1 p.2 (hrow p hp) (hcols p.2 (List.of_mem_zip (a := p.1) (b := p.2) hp).2)
 
 theorem fromSparse_order_independent (zero : β) (data : List (List β)) (cols : List (List Int))
     (chans chans' : List Nat) (hc : chans.Nodup) (hc' : chans'.Nodup) (hlen : data.length = cols.length)
@@ -20,7 +166,162 @@ theorem fromSparse_order_independent (zero : β) (data : List (List β)) (cols :
     (ho' : fromSparse zero data cols chans' = some out') (i j j' : Nat) (hj : j < chans.length)
     (hj' : j' < chans'.length) (heq : chans[j]'hj = chans'[j']'hj') (hi : i < data.length) :
     (out.getD i []).getD j zero = (out'.getD i []).getD j' zero := by
-  sorry
+  rw [fromSparse_spec zero data cols chans hc hlen hrow hcols] at ho
+  rw [fromSparse_spec zero data cols chans' hc' hlen hrow hcols] at ho'
+  injection ho with ho
+  injection ho' with ho'
+  subst ho ho'
+  have hi' : i < (data.zip cols).length := by rw [List.length_zip]; omega
+  simp only [List.getD_eq_getElem?_getD, List.getElem?_map, List.getElem?_eq_getElem hi',
+    List.getElem?_eq_getElem hj, List.getElem?_eq_getElem hj', Option.map_some, Option.getD_some, heq]
+
+
+/-! ## `get_features` -/
+
+theorem mem_intersect1d (a b : List Nat) (v : Nat) : v ∈ intersect1d a b ↔ v ∈ a ∧ v ∈ b := by
+  unfold intersect1d
+  rw [(PhyVerif.C07.Lemmas.unique_spec _).2 v]
+  simp only [List.mem_map, List.mem_filter, List.contains_eq_mem, decide_eq_true_eq]
+  constructor
+  · rintro ⟨w, h, e⟩
+    have : w = v := Int.ofNat.inj e
+    exact this ▸ h
+  · intro h
+    exact ⟨v, h, rfl⟩
+
+theorem gatherRows_spec (nan : β) (sf : Sparse β) (nloc : Nat) (spikeIds : List Nat)
+    (hdata : ∀ r ∈ sf.data, r.length = nloc)
+    (hrows : ∀ rows, sf.rows = some rows → rows.Nodup ∧ rows.length = sf.data.length)
+    (hnone : sf.rows = none → ∀ q ∈ spikeIds, q < sf.data.length)
+    (hs : spikeIds.Nodup) :
+    ∃ feats, gatherRows nan sf nloc spikeIds = some feats ∧ feats.length = spikeIds.length ∧
+      (∀ r ∈ feats, r.length = nloc) ∧
+      ∀ i (hi : i < spikeIds.length) row, storedRow sf (spikeIds[i]'hi) = some row →
+        feats[i]? = some row := by
+  obtain ⟨data, cols, rows⟩ := sf
+  cases rows with
+  | none =>
+    simp only at hdata
+    have hq := hnone rfl
+    refine ⟨spikeIds.map fun q => data.getD q [], ?_, by simp, ?_, ?_⟩
+    · show spikeIds.mapM (fun q => data[q]?) = _
+      apply PhyVerif.Np.Lemmas.mapM_option_eq_some
+      intro q hqm
+      simp [List.getD_eq_getElem?_getD, List.getElem?_eq_getElem (hq q hqm)]
+    · intro r hr
+      obtain ⟨q, hqm, rfl⟩ := List.mem_map.mp hr
+      apply hdata
+      simp [List.getD_eq_getElem?_getD, List.getElem?_eq_getElem (hq q hqm)]
+    · intro i hi row hrow
+      have hrow' : data[spikeIds[i]]? = some row := hrow
+      simp [List.getD_eq_getElem?_getD, hrow', hi]
+  | some rows =>
+    simp only at hdata
+    obtain ⟨hrnd, hrlen⟩ := hrows rows rfl
+    have hmem := mem_intersect1d spikeIds rows
+    have hrel := PhyVerif.Np.Lemmas.indexOf_eq ((intersect1d spikeIds rows).map Int.ofNat) rows hrnd
+      (by
+        intro c hc
+        obtain ⟨v, hv, rfl⟩ := List.mem_map.mp hc
+        exact ⟨by simp, by simpa using ((hmem v).mp hv).2⟩)
+    have hout := PhyVerif.Np.Lemmas.indexOf_eq ((intersect1d spikeIds rows).map Int.ofNat) spikeIds hs
+      (by
+        intro c hc
+        obtain ⟨v, hv, rfl⟩ := List.mem_map.mp hc
+        exact ⟨by simp, by simpa using ((hmem v).mp hv).1⟩)
+    let feats := scatter (fun v => spikeIds.idxOf v) (fun v => data.getD (rows.idxOf v) [])
+      (intersect1d spikeIds rows) (List.replicate spikeIds.length (List.replicate nloc nan))
+    have hg : gatherRows nan ⟨data, cols, some rows⟩ nloc spikeIds = some feats := by
+      simp only [gatherRows, hrel, hout, Option.bind_eq_bind, Option.bind_some, Option.pure_def]
+      simp only [List.map_map, List.zip_map', List.foldl_map]
+      rfl
+    have hlen : feats.length = spikeIds.length := by
+      simp only [feats, scatter_length, List.length_replicate]
+    have hget : ∀ i (hi : i < spikeIds.length), feats[i]? = some
+        (if spikeIds[i] ∈ rows then data.getD (rows.idxOf spikeIds[i]) [] else List.replicate nloc nan) := by
+      intro i hi
+      by_cases hq : spikeIds[i] ∈ rows
+      · rw [if_pos hq]
+        apply scatter_get_of_written
+        · exact ⟨spikeIds[i], (hmem _).mpr ⟨List.getElem_mem hi, hq⟩, hs.idxOf_getElem i hi⟩
+        · intro v hv hp
+          have hvm := ((hmem v).mp hv).1
+          have := List.getElem_idxOf (List.idxOf_lt_length_iff.mpr hvm)
+          simp only [hp] at this
+          rw [this]
+        · simpa using hi
+      · rw [if_neg hq]
+        simp only [feats]
+        rw [scatter_get_of_not_written]
+        · simp [hi]
+        · intro v hv hp
+          have hvm := (hmem v).mp hv
+          have := List.getElem_idxOf (List.idxOf_lt_length_iff.mpr hvm.1)
+          simp only [hp] at this
+          exact hq (this ▸ hvm.2)
+    refine ⟨feats, hg, hlen, ?_, ?_⟩
+    · intro r hr
+      obtain ⟨i, hi, rfl⟩ := List.mem_iff_getElem.mp hr
+      have hi' : i < spikeIds.length := hlen ▸ hi
+      have h := hget i hi'
+      rw [List.getElem?_eq_getElem hi] at h
+      injection h with h
+      rw [h]
+      split
+      · rename_i hq
+        apply hdata
+        have : rows.idxOf spikeIds[i] < data.length := hrlen ▸ List.idxOf_lt_length_iff.mpr hq
+        simp [List.getD_eq_getElem?_getD, List.getElem?_eq_getElem this]
+      · simp
+    · intro i hi row hrow
+      rw [hget i hi]
+      have hrow' : (if rows.contains spikeIds[i] then data[rows.idxOf spikeIds[i]]? else none) = some row := hrow
+      by_cases hq : spikeIds[i] ∈ rows
+      · rw [if_pos (by simpa using hq)] at hrow'
+        rw [if_pos hq, List.getD_eq_getElem?_getD, hrow']
+        rfl
+      · rw [if_neg (by simpa using hq)] at hrow'
+        cases hrow'
+
+theorem colsFor_eq (sf : Sparse β) (nloc nSpikes nTemplates : Nat) (spikeTemplates : List Nat)
+    (hst : StoreOK sf nloc nSpikes nTemplates spikeTemplates) (spikeIds : List Nat)
+    (hsr : ∀ q ∈ spikeIds, q < nSpikes) :
+    colsFor sf nloc spikeTemplates spikeIds = some (spikeIds.map (colsRow sf nloc spikeTemplates)) := by
+  obtain ⟨data, cols, rows⟩ := sf
+  obtain ⟨_, hcols, _, _, hstl, hstt⟩ := hst
+  cases cols with
+  | none => simp [colsFor, colsRow]
+  | some cols =>
+    obtain ⟨hcl, _, _⟩ := hcols cols rfl
+    show spikeIds.mapM (fun q => do let t ← spikeTemplates[q]?; cols[t]?) =
+      some (spikeIds.map fun q => cols.getD (spikeTemplates.getD q 0) [])
+    apply PhyVerif.Np.Lemmas.mapM_option_eq_some
+    intro q hq
+    have hq' : q < spikeTemplates.length := hstl ▸ hsr q hq
+    have ht : spikeTemplates[q] < cols.length := hcl ▸ hstt _ (List.getElem_mem hq')
+    simp [List.getD_eq_getElem?_getD, List.getElem?_eq_getElem hq', List.getElem?_eq_getElem ht]
+
+theorem colsRow_ok (sf : Sparse β) (nloc nSpikes nTemplates : Nat) (spikeTemplates : List Nat)
+    (hst : StoreOK sf nloc nSpikes nTemplates spikeTemplates) (q : Nat) (hq : q < nSpikes) :
+    (colsRow sf nloc spikeTemplates q).length = nloc ∧
+      ((colsRow sf nloc spikeTemplates q).filter (0 ≤ ·)).Nodup := by
+  obtain ⟨data, cols, rows⟩ := sf
+  obtain ⟨_, hcols, _, _, hstl, hstt⟩ := hst
+  cases cols with
+  | none =>
+    refine ⟨by simp [colsRow], ?_⟩
+    show (((List.range nloc).map Int.ofNat).filter (0 ≤ ·)).Nodup
+    apply List.Pairwise.filter
+    rw [List.pairwise_map]
+    exact List.nodup_range.imp (fun h h' => h (Int.ofNat.inj h'))
+  | some cols =>
+    obtain ⟨hcl, hcw, hok⟩ := hcols cols rfl
+    have hq' : q < spikeTemplates.length := hstl ▸ hq
+    have ht : spikeTemplates[q] < cols.length := hcl ▸ hstt _ (List.getElem_mem hq')
+    have hmem : colsRow ⟨data, some cols, rows⟩ nloc spikeTemplates q ∈ cols := by
+      show cols.getD (spikeTemplates.getD q 0) [] ∈ cols
+      simp [List.getD_eq_getElem?_getD, List.getElem?_eq_getElem hq', List.getElem?_eq_getElem ht]
+    exact ⟨hcw _ hmem, hok _ hmem⟩
 
 theorem getFeatures_spec (zero nan : β) (sf : Sparse β) (nloc nSpikes nTemplates : Nat)
     (spikeTemplates : List Nat) (hst : StoreOK sf nloc nSpikes nTemplates spikeTemplates)
@@ -31,7 +332,36 @@ theorem getFeatures_spec (zero nan : β) (sf : Sparse β) (nloc nSpikes nTemplat
       ∀ i (hi : i < spikeIds.length) row, storedRow sf (spikeIds[i]'hi) = some row →
         out.getD i [] = chans.map fun c =>
           denseEntry zero row (colsRow sf nloc spikeTemplates (spikeIds[i]'hi)) c := by
-  sorry
+  obtain ⟨feats, hg, hflen, hfw, hfget⟩ := gatherRows_spec nan sf nloc spikeIds hst.1 hst.2.2.1
+    (fun h q hq => hst.2.2.2.1 h ▸ hsr q hq) hs
+  have hcf := colsFor_eq sf nloc nSpikes nTemplates spikeTemplates hst spikeIds hsr
+  have hlen : feats.length = (spikeIds.map (colsRow sf nloc spikeTemplates)).length := by
+    rw [List.length_map, hflen]
+  have hrow : ∀ p ∈ feats.zip (spikeIds.map (colsRow sf nloc spikeTemplates)), p.1.length = p.2.length := by
+    intro p hp
+    obtain ⟨h1, h2⟩ := List.of_mem_zip (a := p.1) (b := p.2) hp
+    obtain ⟨q, hq, hq2⟩ := List.mem_map.mp h2
+    rw [hfw _ h1, ← hq2, (colsRow_ok sf nloc nSpikes nTemplates spikeTemplates hst q (hsr q hq)).1]
+  have hok : ColsOK (spikeIds.map (colsRow sf nloc spikeTemplates)) := by
+    intro r hr
+    obtain ⟨q, hq, rfl⟩ := List.mem_map.mp hr
+    exact (colsRow_ok sf nloc nSpikes nTemplates spikeTemplates hst q (hsr q hq)).2
+  have hfs := fromSparse_spec zero feats _ chans hc hlen hrow hok
+  refine ⟨(feats.zip (spikeIds.map (colsRow sf nloc spikeTemplates))).map
+    (fun p => chans.map fun c => denseEntry zero p.1 p.2 c), ?_, ?_, ?_⟩
+  · simp only [getFeatures, hg, hcf, Option.bind_eq_bind, Option.bind_some]
+    exact hfs
+  · simp [hflen]
+  · intro i hi row hrow
+    have h1 := hfget i hi row hrow
+    have h2 : (spikeIds.map (colsRow sf nloc spikeTemplates))[i]? =
+        some (colsRow sf nloc spikeTemplates spikeIds[i]) := by
+      rw [List.getElem?_map, List.getElem?_eq_getElem hi]; rfl
+    have h3 : (feats.zip (spikeIds.map (colsRow sf nloc spikeTemplates)))[i]? =
+        some (row, colsRow sf nloc spikeTemplates spikeIds[i]) :=
+      List.getElem?_zip_eq_some.mpr ⟨h1, h2⟩
+    rw [List.getD_eq_getElem?_getD, List.getElem?_map, h3]
+    rfl
 
 theorem getTemplateFeatures_spec (zero nan : β) (tf : Sparse β) (nloc nSpikes nTemplates : Nat)
     (spikeTemplates : List Nat) (hst : StoreOK tf nloc nSpikes nTemplates spikeTemplates)
@@ -40,7 +370,8 @@ theorem getTemplateFeatures_spec (zero nan : β) (tf : Sparse β) (nloc nSpikes 
       out.length = spikeIds.length ∧
       ∀ i (hi : i < spikeIds.length) row, storedRow tf (spikeIds[i]'hi) = some row →
         out.getD i [] = (List.range nTemplates).map fun c =>
-          denseEntry zero row (colsRow tf nloc spikeTemplates (spikeIds[i]'hi)) c := by
-  sorry
+          denseEntry zero row (colsRow tf nloc spikeTemplates (spikeIds[i]'hi)) c :=
+  getFeatures_spec zero nan tf nloc nSpikes nTemplates spikeTemplates hst spikeIds (List.range nTemplates)
+    hs hsr List.nodup_range
 
 end PhyVerif.C06.Lemmas
